@@ -182,6 +182,8 @@ def execute(rec):
         if "p" in op and op["p"] >= len(w.parties):
             continue
         kind = op["op"]
+        witness = w.witness(op)
+        pre = w.tree(op["p"]) if witness else None
         out = w.apply(op)
         if kind == "cmode":
             stats["toggles"] += 1
@@ -207,10 +209,19 @@ def execute(rec):
             if out["st"] == "solvefail":
                 stats["solvefail"] += 1
                 obs.append((oi, kind, "solvefail"))
+                if witness:
+                    # the pre-call values satisfy every enabled most-derived block: a block that
+                    # is off / overridden (or another instance's) must be what made it fail
+                    viol.append({"inv": "C07.enabled_set", "cls": "C07.enabled_set/fails_with_witness",
+                                 "detail": {"op": oi, "party": p, "cls": pt.cname, "state": pre,
+                                            "modes": pt.modes}})
+                    break
                 continue
             if out["st"] != "ok":
                 obs.append((oi, kind, out["st"], out.get("exc")))
                 continue
+            if witness:
+                stats["witness_calls"] = stats.get("witness_calls", 0) + 1
             tree = w.tree(p)
             obs.append((oi, kind, "ok", tree))
             fail = refsem.check_tree(P, pt.cname, tree, pt.modes, pt.rangelists, op.get("inline"))
